@@ -4,13 +4,32 @@ use crate::dual::linalg::fouter11_;
 use num_traits::Pow;
 use std::sync::Arc;
 
+/// First order coefficient of `x^p`: `p x^(p-1)`, which is identically zero for `p = 0`
+/// (also at `x = 0`, where `0 * 0^-1` would evaluate to NaN).
+fn pow_coeff(real: f64, power: f64) -> f64 {
+    if power == 0.0 {
+        0.0
+    } else {
+        power * real.powf(power - 1.0)
+    }
+}
+
+/// Second order coefficient of `x^p`: `p (p-1) x^(p-2) / 2`, identically zero for `p = 0` and `p = 1`.
+fn pow_coeff2(real: f64, power: f64) -> f64 {
+    if power == 0.0 || power == 1.0 {
+        0.0
+    } else {
+        0.5 * power * (power - 1.0) * real.powf(power - 2.0)
+    }
+}
+
 impl Pow<f64> for Dual {
     type Output = Dual;
     fn pow(self, power: f64) -> Self::Output {
         Dual {
             real: self.real.pow(power),
             vars: self.vars,
-            dual: self.dual * power * self.real.pow(power - 1.0),
+            dual: self.dual * pow_coeff(self.real, power),
         }
     }
 }
@@ -21,7 +40,7 @@ impl Pow<f64> for &Dual {
         Dual {
             real: self.real.pow(power),
             vars: Arc::clone(self.vars()),
-            dual: &self.dual * power * self.real.pow(power - 1.0),
+            dual: &self.dual * pow_coeff(self.real, power),
         }
     }
 }
@@ -29,8 +48,8 @@ impl Pow<f64> for &Dual {
 impl Pow<f64> for Dual2 {
     type Output = Dual2;
     fn pow(self, power: f64) -> Self::Output {
-        let coeff = power * self.real.powf(power - 1.);
-        let coeff2 = 0.5 * power * (power - 1.) * self.real.powf(power - 2.);
+        let coeff = pow_coeff(self.real, power);
+        let coeff2 = pow_coeff2(self.real, power);
         let beta_cross = fouter11_(&self.dual.view(), &self.dual.view());
         Dual2 {
             real: self.real.powf(power),
@@ -44,8 +63,8 @@ impl Pow<f64> for Dual2 {
 impl Pow<f64> for &Dual2 {
     type Output = Dual2;
     fn pow(self, power: f64) -> Self::Output {
-        let coeff = power * self.real.powf(power - 1.);
-        let coeff2 = 0.5 * power * (power - 1.) * self.real.powf(power - 2.);
+        let coeff = pow_coeff(self.real, power);
+        let coeff2 = pow_coeff2(self.real, power);
         let beta_cross = fouter11_(&self.dual.view(), &self.dual.view());
         Dual2 {
             real: self.real.powf(power),
